@@ -105,8 +105,11 @@ def gen_steps(rng, specs, nclients, n, client_ops=True, late_start=False, snoope
                     pairs.append([e["name"], val])
                 if pairs:
                     steps.append({"op": "c_write", "c": rng.randrange(4), "dev": d, "vec": v["name"], "els": pairs})
-        elif r < 0.9:
+        elif r < 0.87:
             steps.append({"op": "gap", "dt": rng.choice([0.0, 0.0, 0.001, 0.05, 1.0, 10.0])})
+        elif r < 0.9:
+            steps.append({"op": "stall", "conn": rng.choice(["cl0.ctl", "cl0.blob", "cl1.ctl"]), "dir": rng.choice(["up", "down"]),
+                          "dt": rng.choice([0.01, 0.5, 5.0, 30.0])})
         else:
             steps.append({"op": "settle"})
     return steps
@@ -371,6 +374,14 @@ def execute(scen):
                 judge()
             elif op == "gap":
                 sim.run_for(st["dt"])
+            elif op == "stall":
+                try:
+                    ct, srv = sim.net.find(st["conn"])
+                except KeyError:
+                    continue
+                pipe = ct.out if st["dir"] == "up" else ct.inp
+                sim.do(pipe.stall, st["dt"])
+                probes["temporary_stall"] = probes.get("temporary_stall", 0) + 1
             else:
                 res = apply_step(stack, st)
                 if op == "snoop" and res.ok:
@@ -401,7 +412,8 @@ def execute(scen):
     kinds = sorted({v["kind"] for s in scen["devices"] for g in G.effective_groups(s).values() for v in g["vectors"].values()})
     ops = sorted({s["op"] for s in scen["steps"]})
     sig = repr((ops, kinds, net["latency"], net["frag"], net["hwm"], depth, scen["nclients"], len(scen["devices"])))
-    return {"violations": viol, "digest": digest, "probes": probes, "faults": {}, "steps": steps, "vtime": vtime, "sig": sig,
+    faults = {"temporary_stall": probes.pop("temporary_stall")} if "temporary_stall" in probes else {}
+    return {"violations": viol, "digest": digest, "probes": probes, "faults": faults, "steps": steps, "vtime": vtime, "sig": sig,
             "nontrivial": judged > 0 and changed,
             "sample": {"devices": [s["name"] for s in scen["devices"]], "net": net, "steps": scen["steps"][:12]}}
 
